@@ -68,8 +68,12 @@ def flip_content_branches(ex, st, judge2):
         if type(neg) is not E:
             continue
         vs = {v.a[0] for v in X.free_vars(neg)}
-        if not vs or vs & scalar or not all(v.startswith('img') for v in vs):
+        if not vs or not all(v.startswith('img') for v in vs):
             continue
+        # a branch on a scalar member may be a shape selector (version, variant, length) or a plain value test (a flag that
+        # switches a conversion on): the other side is examined as well, but only counts if the derived image still has
+        # the original's layout - the decoder consumes exactly the image, reads exactly the same bytes, length fields unchanged
+        on_scalar = bool(vs & scalar)
         if neg in seen:
             continue
         seen.add(neg)
@@ -77,41 +81,49 @@ def flip_content_branches(ex, st, judge2):
         if not ok:
             ex.obl_solver += 1
             continue
-        if done >= 24:
+        if done >= 48:
             break
         done += 1
         tape = [(m or {}).get(nm, (st.model or {}).get(nm, 0)) for nm, w, k in st.inputs]
         ex2 = symex.Executor(ex.prog, max_steps=ex.max_steps, max_paths=ex.max_paths, enum_limit=ex.enum_limit)
         ex2.solver = ex.solver
         ex2.concolic_tape = tape
-        ex2.on_path_end = judge2
+        ex2.on_path_end = judge2[1] if on_scalar else judge2[0]
         ex2.hooks = ex.hooks
+        if on_scalar:
+            ex2.max_steps = min(ex2.max_steps, 200000)
+            ex2.max_alloc = 1 << 20       # a flipped length asks for an absurd buffer: not a derived image, do not materialise it
         try:
             ex2.run(ex.entry_name)
         except symex.Inconclusive as e:
-            ex.results.append(symex.PathResult('limit', 'flipped content branch: %s' % e, st))
+            if not on_scalar:
+                ex.results.append(symex.PathResult('limit', 'flipped content branch: %s' % e, st))
             continue
         ex.flip_paths = getattr(ex, 'flip_paths', 0) + len(ex2.results)
         ex.obl_solver += ex2.obl_solver
         ex.obl_concrete += ex2.obl_concrete
         ex.obl_failed += ex2.obl_failed
         for v in ex2.violations:
-            v.msg += ' [derived image taking the other side of a branch on content bytes %s]' % sorted(vs)[:3]
+            if on_scalar and v.kind != 'reencode':
+                continue            # the other side of a selector: a different (possibly malformed) shape, C10's subject
+            v.msg += ' [derived image taking the other side of a branch on %s bytes %s]' % ('field' if on_scalar else 'content', sorted(vs)[:3])
             ex.violations.append(v)
         for k2, c2 in ex2.reached.items():
             ex.reached[k2] = ex.reached.get(k2, 0) + c2
         ex.funcs_run |= ex2.funcs_run
         for r in ex2.results:
-            if r.status not in ('ok', 'assume'):
+            if r.status not in ('ok', 'assume') and not on_scalar:
                 ex.results.append(r)
 
 
-def make_judge(cls, n, osz, img, flip=True):
+def make_judge(cls, n, osz, img, flip=True, same_layout_only=False, orig_reads=None):
     def judge(ex, st, status):
         if status != 'ok':
             return
         if flip:
-            flip_content_branches(ex, st, make_judge(cls, n, osz, img, flip=False))
+            flip_content_branches(ex, st, (make_judge(cls, n, osz, img, flip=False),
+                                           make_judge(cls, n, osz, img, flip=False, same_layout_only=True,
+                                                      orig_reads=st.flags.get('reads:in'))))
         g = J.note(st, 'g')
         p = J.note(st, 'p')
         good = J.note(st, 'good')
@@ -122,6 +134,10 @@ def make_judge(cls, n, osz, img, flip=True):
                                            list(st.inputs), 'judge'))
         g, p, good = st.simp(g), st.simp(p), st.simp(good)
         ok, m = J.can_be(ex, st, X.lor(X.ne(g, n, 64), X.eq(good, 0, 64)))
+        if same_layout_only and (ok or st.flags.get('reads:in') != orig_reads):
+            # the flipped branch was a shape selector (the decoder consumes another number of bytes or looks at other
+            # bytes - another variant / version): a different layout, not a derived image of this one
+            return
         if ok:
             viol('%s: decoder consumed %s of the %d image bytes (good=%s)' % (
                 cls, X.evaluate(g, m or {}), n, X.evaluate(good, m or {})), m)
